@@ -340,6 +340,9 @@ func (r *Runner) Step(ev M) error {
 		}
 		r.W = w
 		res["ok"] = true
+	case "ListQueries":
+		// read-only: every list query with every filter / limit / continuation mode (C20)
+		res = J{"ok": true, "lists": r.W.ListQueries(mBool(ev, "full"))}
 	case "ExportImport":
 		var nw *World
 		res, nw = r.W.ExportImport()
